@@ -28,6 +28,36 @@ LITERALS = ['char *s = "a\\"b\\\\c\\n"; char c = \'\\\'\'; char d = \'"\'; int e
             '']
 
 
+def literal_programs():
+    """Programs made of every string literal of three chunks and every character constant of two chunks over the
+    literal chunk alphabet of C10 (escapes, both quote kinds, backslashes, a non-ASCII character), 40 per program;
+    literals the parser rejects are C10's concern and are dropped one by one."""
+    import itertools
+    from pycparser import c_parser
+    chunks = ["a", " ", "\\n", "\\'", '\\"', "\\\\", "\\0", "\\x41", "'", '"', "\u00e9", "%", "{"]
+    lits = []
+    for pre in ("", "L"):
+        for cs in itertools.product(chunks, repeat=3):
+            if '"' in cs:
+                continue
+            lits.append(pre + '"' + "".join(cs) + '"')
+        for cs in itertools.product(chunks, repeat=2):
+            if "'" in cs:
+                continue
+            lits.append(pre + "'" + "".join(cs) + "'")
+    ok = []
+    for lit in lits:
+        try:
+            c_parser.CParser().parse("int x = sizeof(%s);" % lit, "l.c")
+            ok.append(lit)
+        except Exception:
+            pass
+    progs = []
+    for i in range(0, len(ok), 40):
+        progs.append(" ".join("int v%d = sizeof(%s);" % (j, l) for j, l in enumerate(ok[i:i + 40])))
+    return progs, len(ok)
+
+
 def node_ids(ast):
     """Identities of every node object reachable through ANY slot (not only children(): some plain-value
     fields hold nodes, e.g. Decl.align, Pragma.string)."""
@@ -171,6 +201,14 @@ def run(tier):
     per = 40 if tier == "quick" else 120
     for p in progs + LITERALS * 5:
         jobs.append((p, rnd.sample(seqs, min(len(seqs), per))))
+    lp, nlit = literal_programs()
+    first = {}
+    for q in seqs:      # one sequence starting with each kind of action (repr/eval, every pickle protocol, deepcopy)
+        if q["ops"]:
+            first.setdefault(q["ops"][0][0], q)
+    for p in lp:
+        jobs.append((p, list(first.values()) + rnd.sample(seqs, min(len(seqs), 8 if tier == "quick" else 40))))
+    ctx.note("literal_population", dict(literals=nlit, programs=len(lp)))
     for p in big:
         jobs.append((p, rnd.sample(seqs, min(len(seqs), 12 if tier == "quick" else 60))))
     n = 0
